@@ -138,6 +138,58 @@ def render_tree(tree):
     return out
 
 
+def restyle(text, k):
+    """The same XML document in another spelling (bits of k): CRLF line ends, XML comments between elements,
+    attributes in reverse order, single-quoted attributes, <x></x> instead of <x/>, a byte order mark, no XML
+    declaration. Returns text to be written with newline=''. Raises AssertionError if the re-parsed document
+    differs from the original one (harness self-check)."""
+    from xml.etree import ElementTree as ET
+    root = ET.fromstring(text)
+    crlf, comments, rev, single, expand, bom, nodecl = (bool(k & (1 << i)) for i in range(7))
+    q = "'" if single else '"'
+
+    def et(s):
+        return s.replace("&", "&amp;").replace("<", "&lt;").replace(">", "&gt;")
+
+    def ea(s):
+        s = et(s).replace("\n", "&#10;").replace("\t", "&#9;")
+        return s.replace("'", "&apos;") if single else s.replace('"', "&quot;")
+
+    out = []
+
+    def ser(el):
+        attrs = list(el.attrib.items())
+        if rev:
+            attrs.reverse()
+        out.append("<" + el.tag + "".join(f" {a}={q}{ea(v)}{q}" for a, v in attrs))
+        if not el.text and len(el) == 0 and not expand:
+            out.append("/>")
+            return
+        out.append(">" + et(el.text or ""))
+        for i, ch in enumerate(el):
+            if comments and (i + len(el.tag)) % 2 == 0:
+                out.append("<!-- reviewed: " + ch.tag + " -->")
+            ser(ch)
+            out.append(et(ch.tail or ""))
+        out.append("</" + el.tag + ">")
+
+    ser(root)
+    res = ("" if nodecl else '<?xml version="1.0" encoding="UTF-8"?>\n') + "".join(out) + "\n"
+    if comments:
+        res = res.replace("<protocol>", "<!-- generated from the wiki -->\n<protocol>", 1) if not nodecl else res
+
+    def norm(e):
+        return (e.tag, sorted(e.attrib.items()), (e.text or ""), (e.tail or ""), [norm(c) for c in e])
+    back = ET.fromstring(res)
+    a, b = norm(root), norm(back)
+    assert a[:3] == b[:3] and a[4] == b[4], "restyle changed the document"
+    if crlf:
+        res = res.replace("\n", "\r\n")
+    if bom:
+        res = "\ufeff" + res
+    return res
+
+
 # ----------------------------------------------------------------------------------------
 # naming
 
